@@ -20,8 +20,10 @@ The four clauses of the statement and their status on the code as written:
    finding `fastpath-full-remote-write`) and for flags on the in-place paths (`c04_flag_refuted`, findings
    `flag-altered:*`); PROVED for every write that goes through the engine, whatever its shape, in every member
    (`c04_unwritable_untouched_engine`), hence for ALL remote writes in the member with the fast path closed
-   (`c04_unwritable_untouched_repaired`); flags: PROVED on the merge path (`c04_merge_protects`) and for
-   identifier-less writes that carry no flag (`c04_copyToAll_flag`).
+   (`c04_unwritable_untouched_repaired`); flags: PROVED on the merge path (`c04_merge_protects`), for
+   identifier-less writes that carry no flag (`c04_copyToAll_flag`), and for the overlay of the in-place paths in
+   the member that puts the flag back (`c04_flag_kept_repaired`). Missing: the flag clause for a whole `UpdateList`
+   call of the repaired member (delete elements included) as one theorem.
 2. unaddressed elements neither change nor influence acceptance — REFUTED (`c04_unaddressed_refuted`, findings
    `unaddressed-unwritable-blocks:Merge`, `…:deleteFilteredData`); "do not change" PROVED for the merge path in every
    member (`c04_unaddressed_unchanged`); "do not influence" PROVED for the repaired `Merge`
@@ -97,6 +99,17 @@ theorem c04_flag_refuted :
         ≠ (storeOf [changeable0, changeable2]).readStore.map (·.get 1) ∧
     (remoteWrite aw (storeOf [changeable0, changeable2]) [] .nil (.data ⟨some (selId 0), some elFlag⟩)).1.readStore.map (·.get 1)
         ≠ (storeOf [changeable0, changeable2]).readStore.map (·.get 1) := by decide
+
+/-- PROVED for the member whose in-place paths put the flag back (candidate repair
+    `patches/C04-flag-altered-candidate.patch`, flag `inplaceAltersFlag` off): the overlay a selector write or an
+    identifier-less write applies to an item keeps the item's flag, whatever the write carries. -/
+theorem c04_flag_kept_repaired (c : UCfg) (hc : c.inplaceAltersFlag = false) (sh : Shape) (f : Nat)
+    (hf : sh.flag = some f) (nw x : Item) (hl : f < x.length) : (copyNonNilF c sh true nw x).get f = x.get f :=
+  copyNonNilF_keeps_flag c hc sh f hf nw x hl
+
+/-- non-vacuity: the writes of the refutation, in the repaired member, apply their values and leave the flags -/
+example : (remoteWrite repaired (storeOf [changeable0, changeable2]) [[none, some 0, none, some 2, none]] .nodata .nil).1.readStore
+      = [[some 0, some 1, none, some 2, none], [some 2, some 1, none, some 2, none]] := by decide
 
 /-- PROVED (partial, every member): the merge path — identifier-based partial writes — never alters a flag and
     never touches an unwritable element, position by position. -/
